@@ -359,6 +359,9 @@ class SymInt:
     def __format__(self, spec):
         return format(engine().concretise(self.expr, "format"), spec)
 
+    def __str__(self):
+        return str(engine().concretise(self.expr, "str"))
+
     def __round__(self, n=None):
         return self
 
